@@ -52,7 +52,7 @@ def budget(tier):
 
 
 def essential_labels(tier):
-    return ["n_0", "n_not_multiple_of_block", "two_blocks_in_kernel", "restricted_line_in_block", "include_file", "helper_function", "form:decl", "form:for", "kernels_2plus"]
+    return ["n_0", "n_not_multiple_of_block", "two_blocks_in_kernel", "restricted_line_in_block", "include_file", "helper_function", "form:decl", "form:for", "kernels_2plus", "no_vectorised_block_in_source"]
 
 
 @st.composite
@@ -79,6 +79,14 @@ def cases(draw, tier):
         if draw(st.integers(0, 2)) == 0:
             outer = {"targets": draw(st.lists(st.sampled_from(TARGETS), min_size=1, max_size=3, unique=True)), "c": draw(st.integers(1, 9)) * 10000}
         kernels.append({"blocks": blocks, "include": inc, "outer": outer, "fillers": draw(st.integers(0, 3)), "restrict": draw(st.booleans())})
+    if draw(st.integers(0, 7)) == 0:
+        # a source without any vectorised block (a scalar kernel): restricted lines / include files must be honoured all the same
+        kernels = kernels[:1]
+        kernels[0]["blocks"] = []
+        kernels[0]["scalar_k"] = draw(st.integers(-5, 5))
+        if kernels[0]["outer"] is None:
+            kernels[0]["outer"] = {"targets": draw(st.lists(st.sampled_from(TARGETS), min_size=1, max_size=3, unique=True)), "c": draw(st.integers(1, 9)) * 10000}
+        n = max(n, 1)
     return {"kernels": kernels, "n": n, "block": block}
 
 
@@ -128,6 +136,9 @@ def make_source(case):
             t = f"    /*r{len(restricted)}*/ vf_outer = {k['outer']['c']}; //only_for_context {' '.join(k['outer']['targets'])}"
             restricted.append((t, k["outer"]["targets"]))
             lines.append(t)
+        if not k["blocks"]:
+            lines.append(f"    y[0] = 2 * x[0] + ({k['scalar_k']}) + VF_BIAS_{j} + vf_outer;")
+            lines.append("    cnt[0] = 7;")
         for b, blk in enumerate(k["blocks"]):
             v = VARS[b]
             if blk["form"] == "decl":
@@ -153,11 +164,14 @@ def reference(case, j, target, x):
     k = case["kernels"][j]
     n = case["n"]
     stride = n + PAD
-    nb = len(k["blocks"])
+    nb = max(len(k["blocks"]), 1)
     cnt = np.zeros(nb * stride, dtype="int32")
     y = np.full(nb * stride, SENT)
     bias = k["include"]["bias"] if k["include"] is not None and target in _inc_targets(k["include"]) else 0
     outer = k["outer"]["c"] if k["outer"] is not None and target in k["outer"]["targets"] else 0
+    if not k["blocks"]:
+        cnt[0] = 7
+        y[0] = 2 * x[0] + k["scalar_k"] + bias + outer
     for b, blk in enumerate(k["blocks"]):
         extra = blk["restricted"]["c"] if blk["restricted"] is not None and target in blk["restricted"]["targets"] else 0
         for i in range(n):
@@ -233,6 +247,8 @@ def run_case(case):
         labels.add("kernels_2plus")
     nontrivial = bool(n % block) if block else False
     for k in case["kernels"]:
+        if not k["blocks"]:
+            labels.add("no_vectorised_block_in_source")
         if len(k["blocks"]) >= 2:
             labels.add("two_blocks_in_kernel")
             nontrivial = True
@@ -282,7 +298,7 @@ def run_case(case):
     stride = n + PAD
 
     def fresh(j):
-        nb = len(case["kernels"][j]["blocks"])
+        nb = max(len(case["kernels"][j]["blocks"]), 1)
         return np.zeros(nb * stride, dtype="int32"), np.full(nb * stride, SENT)
 
     def compare(t, j, cnt, y):
